@@ -164,6 +164,7 @@ def generate(rng, tier):
         c = _gen_case(rng, malformed=(i % 6 == 5))
         if i % 5 == 3:
             c["spill"] = True      # histories on disk
+            c["masked"] = (i % 10 == 3)   # half of them with masked payloads
         cases.append(c)
     return cases
 
@@ -280,7 +281,12 @@ def _run_impl(case, spill_dir):
     for op in case["ops"]:
         try:
             if op[0] == "push":
-                out.push_data(float(npush), T(op[1]))
+                if spill_dir is not None and case.get("masked"):
+                    # a masked payload (nothing masked): stored and spilled as a numpy masked array
+                    import numpy as _np
+                    out.push_data(_np.ma.masked_array(float(npush), mask=False), T(op[1]))
+                else:
+                    out.push_data(float(npush), T(op[1]))
                 npush += 1
                 user.append("ok")
             else:
